@@ -1,8 +1,17 @@
-import WM.Lemmas.HashOrdered
+import WM.Lemmas.HashFormats
 /-!
 C20 (hash files): a hash file read back is the map that was written — for **any** hash function,
 any key/value sequence (duplicate keys, empty keys/values, colliding hashes, equal low bytes),
 any start offset; ordered files answer "closest key at or after k" and iterate from it.
+
+The writers are `buildE` / `buildOrderedE`: `HashWriter` / `OrderedHashWriter` **with the limits of
+the struct formats** (`!ii` lengths < 2^31, `!Iq` hash < 2^32 and position < 2^63, `!qi` table
+position < 2^63 and slot count < 2^31, position index < 2^63).  Inside the limits the theorems hold
+for every input (`hf : … = .ok f`); outside them the writer raises (`hash_writer_rejects`,
+`ordered_writer_rejects`).  The ordered reader reads its positions from the bytes the retyped
+`GrowableArray` wrote (`getPos` = `readItem` on `GA.toBytes`), for whichever typecode H/i/I/q the
+offsets forced.  The statements over the unchecked writer (no bounds needed, Nat positions) are
+`lookup_raw` … in `WM/Lemmas/HashLookup.lean`.
 -/
 set_option linter.unusedSimpArgs false
 namespace WM.C20
@@ -11,214 +20,133 @@ open WM.HashFile
 /-- `HashWriter.close()` always completes: the open-addressing insertion loop finds a free slot
     within `numslots` probes for every bucket (the `2n` slots are never full). -/
 theorem hash_build_total {α} (hash : Key → Nat) (vlen : α → Nat) (so : Nat) (kvs : List (Key × α)) :
-    ∃ f, build hash vlen so kvs = some f := by
-  rcases build_spec hash vlen so kvs with ⟨f, hf, _⟩
-  exact ⟨f, hf⟩
+    ∃ f, build hash vlen so kvs = some f := build_total_raw hash vlen so kvs
+
+/-- A file is written exactly when every number fits its struct format, and then all of them do:
+    key/value lengths below 2^31, hash values below 2^32, record positions below 2^63, slot counts
+    below 2^31. -/
+theorem hash_writer_formats {α} (hash : Key → Nat) (vlen : α → Nat) (so : Nat) (kvs : List (Key × α))
+    (f : File α) (hf : buildE hash vlen so kvs = .ok f) :
+    (∀ kv ∈ kvs, kv.1.length < 2 ^ 31 ∧ vlen kv.2 < 2 ^ 31 ∧ hash kv.1 < 2 ^ 32) ∧
+      (∀ r ∈ f.recs, r.pos < 2 ^ 63) ∧ (∀ t ∈ f.tables, t.length < 2 ^ 31) := by
+  rcases buildE_ok hf with ⟨hb, hfo⟩
+  have hbuilt := built_of_build hb
+  rcases formatsOk_facts hbuilt hfo with ⟨h1, h2⟩
+  refine ⟨?_, fun r hr => (h1 r hr).2.2.2, h2⟩
+  intro kv hkv
+  rcases recs_of_kvs hbuilt kv hkv with ⟨r, hr, hk, hv⟩
+  have := h1 r hr
+  rw [hk, hv] at this
+  exact ⟨this.1, this.2.1, this.2.2.1⟩
+
+/-- Beyond the formats the writer raises `struct.error`: a key or value of 2^31 bytes or more, or a
+    hash function returning 2^32 or more. -/
+theorem hash_writer_rejects {α} (hash : Key → Nat) (vlen : α → Nat) (so : Nat) (kvs : List (Key × α))
+    (h : ∃ kv ∈ kvs, 2 ^ 31 ≤ kv.1.length ∨ 2 ^ 31 ≤ vlen kv.2 ∨ 2 ^ 32 ≤ hash kv.1) :
+    buildE hash vlen so kvs = .error .struct := by
+  rcases build_spec hash vlen so kvs with ⟨f, hf, hbuilt⟩
+  unfold buildE
+  rw [hf]
+  simp only
+  have hno : ¬ formatsOk hash vlen f = true := by
+    intro hfo
+    rcases h with ⟨kv, hkv, hbad⟩
+    rcases recs_of_kvs hbuilt kv hkv with ⟨r, hr, hk, hv⟩
+    have := (formatsOk_facts hbuilt hfo).1 r hr
+    rw [hk, hv] at this
+    omega
+  rw [if_neg hno]
 
 /-- `list(reader.all(k))` are the values written under `k`, in insertion order; absent keys give `[]`. -/
 theorem hash_lookup {α} (hash : Key → Nat) (vlen : α → Nat) (so : Nat) (kvs : List (Key × α))
-    (f : File α) (hf : build hash vlen so kvs = some f) (key : Key) :
-    all hash f key = kvs.filterMap (fun kv => if kv.1 = key then some kv.2 else none) := by
-  rcases build_spec hash vlen so kvs with ⟨f', hf', hb⟩
-  rw [hf] at hf'
-  cases Option.some.inj hf'
-  have hsorted : f.recs.Pairwise (fun a b => a.pos < b.pos) := by
-    rw [hb.recs]; exact layout_pos_sorted vlen kvs _
-  -- reduce the right-hand side to the records
-  have hkvs : kvs = f.recs.map (fun r => (r.key, r.val)) := by
-    rw [hb.recs, layout_kvs]
-  have hrhs : kvs.filterMap (fun kv => if kv.1 = key then some kv.2 else none)
-      = f.recs.filterMap (fun r => if r.key = key then some r.val else none) := by
-    rw [hkvs, List.filterMap_map]; rfl
-  rw [hrhs]
-  unfold all
-  simp only
-  have hlt : hash key % 256 < 256 := Nat.mod_lt _ (by omega)
-  rcases hb.tables _ hlt with ⟨T, hT, hlen, hinv⟩
-  rw [hT]
-  simp only
-  -- the records of this bucket with the key's hash are the records with the key's hash
-  have hent : (bucketEntries hash f.recs (hash key % 256)).filter (fun s => s.1 == hash key)
-      = (f.recs.filter (fun r => hash r.key == hash key)).map (fun r => (hash r.key, r.pos)) := by
-    unfold bucketEntries
-    rw [List.filter_map, List.filter_filter]
-    congr 1
-    apply List.filter_congr
-    intro r _
-    simp only [Function.comp]
-    by_cases h : hash r.key = hash key
-    · simp [h]
-    · simp [h]
-  have hcheck : ∀ r ∈ f.recs,
-      checkKey f key r.pos = (if r.key = key then some r.val else none) := by
-    intro r hr
-    unfold checkKey recAt
-    rw [find_at_pos hsorted hr]
-    simp only
-    by_cases h : r.key = key
-    · simp [h]
-    · simp [h]
-  have hfinal : ((f.recs.filter (fun r => hash r.key == hash key)).map (fun r => (hash r.key, r.pos))).filterMap
-        (fun s => checkKey f key s.2)
-      = f.recs.filterMap (fun r => if r.key = key then some r.val else none) := by
-    rw [List.filterMap_map]
-    have : ∀ l : List (Rec α), (∀ r ∈ l, r ∈ f.recs) →
-        (l.filter (fun r => hash r.key == hash key)).filterMap
-          ((fun s : Slot => checkKey f key s.2) ∘ fun r => (hash r.key, r.pos))
-        = l.filterMap (fun r => if r.key = key then some r.val else none) := by
-      intro l
-      induction l with
-      | nil => intro _; rfl
-      | cons a t ih =>
-        intro hsub
-        have ha := hcheck a (hsub a (by simp))
-        have iht := ih (fun r hr => hsub r (List.mem_cons_of_mem _ hr))
-        rw [List.filter_cons, List.filterMap_cons]
-        by_cases hh : hash a.key = hash key
-        · have hb' : (hash a.key == hash key) = true := by simp [hh]
-          rw [if_pos hb', List.filterMap_cons]
-          simp only [Function.comp] at ha iht ⊢
-          rw [ha, iht]
-        · have hb' : ¬ (hash a.key == hash key) = true := by simp [hh]
-          have hk : ¬ a.key = key := fun h => hh (by rw [h])
-          rw [if_neg hb', iht, if_neg hk]
-    exact this f.recs (fun r hr => hr)
-  by_cases h0 : T.length = 0
-  · rw [if_pos h0]
-    -- empty bucket: no record has this hash, a fortiori none has this key
-    have hnil : bucketEntries hash f.recs (hash key % 256) = [] := by
-      apply List.eq_nil_of_length_eq_zero; omega
-    have := hfinal
-    rw [← hent, hnil] at this
-    rw [← this]; rfl
-  · rw [if_neg h0, scan_inv hinv (hash key) _ (by omega), hent, hfinal]
+    (f : File α) (hf : buildE hash vlen so kvs = .ok f) (key : Key) :
+    all hash f key = kvs.filterMap (fun kv => if kv.1 = key then some kv.2 else none) :=
+  lookup_raw hash vlen so kvs f (buildE_ok hf).1 key
 
 /-- `reader.get(k)` / `reader[k]` is the first value written under `k`; `k in reader` iff written. -/
 theorem hash_get_contains {α} (hash : Key → Nat) (vlen : α → Nat) (so : Nat) (kvs : List (Key × α))
-    (f : File α) (hf : build hash vlen so kvs = some f) (key : Key) :
+    (f : File α) (hf : buildE hash vlen so kvs = .ok f) (key : Key) :
     WM.HashFile.get hash f key = (kvs.find? (fun kv => kv.1 == key)).map (·.2)
-      ∧ (containsKey hash f key = true ↔ key ∈ kvs.map (·.1)) := by
-  unfold WM.HashFile.get containsKey
-  rw [hash_lookup hash vlen so kvs f hf key]
-  clear hf
-  constructor
-  · induction kvs with
-    | nil => rfl
-    | cons a t ih =>
-      rw [List.filterMap_cons, List.find?_cons]
-      by_cases h : a.1 = key
-      · simp [h]
-      · have : (a.1 == key) = false := by simp [h]
-        simp only [h, ↓reduceIte, this]
-        exact ih
-  · induction kvs with
-    | nil => simp
-    | cons a t ih =>
-      rw [List.filterMap_cons]
-      by_cases h : a.1 = key
-      · simp [h]
-      · simp only [h, ↓reduceIte, List.map_cons, List.mem_cons]
-        rw [ih]
-        constructor
-        · intro h1; exact Or.inr h1
-        · rintro (h1 | h1)
-          · exact absurd h1.symm h
-          · exact h1
+      ∧ (containsKey hash f key = true ↔ key ∈ kvs.map (·.1)) :=
+  get_contains_raw hash vlen so kvs f (buildE_ok hf).1 key
 
 /-- Iterating the file (`items()`, `keys()`, `__iter__`) yields the pairs in insertion order. -/
 theorem hash_items {α} (hash : Key → Nat) (vlen : α → Nat) (so : Nat) (kvs : List (Key × α))
-    (f : File α) (hf : build hash vlen so kvs = some f) : items vlen f = kvs := by
-  rcases build_spec hash vlen so kvs with ⟨f', hf', hb⟩
-  rw [hf] at hf'
-  cases Option.some.inj hf'
-  have hsorted : f.recs.Pairwise (fun a b => a.pos < b.pos) := by
-    rw [hb.recs]; exact layout_pos_sorted vlen kvs _
-  unfold items
-  rw [hb.start, walk_layout vlen f hsorted kvs (so + headerSize) [] (by rw [hb.recs]; rfl) hb.eod,
-    layout_kvs]
+    (f : File α) (hf : buildE hash vlen so kvs = .ok f) : items vlen f = kvs :=
+  items_raw hash vlen so kvs f (buildE_ok hf).1
 
 /-! ### ordered files -/
 
-/-- `closest_key(k)`: the first key at or after `k` (keys written in strictly ascending order). -/
+/-- `OrderedHashWriter.add` raises `ValueError` unless the keys strictly ascend from above `b""`;
+    in particular an empty first key is rejected. -/
+theorem ordered_writer_rejects {α} (hash : Key → Nat) (vlen : α → Nat) (so : Nat) (kvs : List (Key × α))
+    (h : ¬ (([] : Key) :: kvs.map (·.1)).Pairwise (· < ·)) :
+    buildOrderedE hash vlen so kvs = .error .value := by
+  unfold buildOrderedE
+  have : ¬ orderedKeysOk [] (kvs.map (·.1)) = true := fun ho => h ((orderedKeysOk_iff _ _).mp ho)
+  rw [if_neg this]
+
+/-- What an accepted ordered file satisfies: ascending non-empty keys, everything within the
+    formats, and the position index read back from its stored bytes is the list of key positions
+    (whatever typecode it was retyped to). -/
+theorem ordered_writer_formats {α} (hash : Key → Nat) (vlen : α → Nat) (so : Nat) (kvs : List (Key × α))
+    (f : File α) (hf : buildOrderedE hash vlen so kvs = .ok f) :
+    (kvs.map (·.1)).Pairwise (· < ·) ∧ (∀ kv ∈ kvs, kv.1 ≠ []) ∧ buildE hash vlen so kvs = .ok f ∧
+      f.indexLen = kvs.length ∧ ∀ k (hk : k < f.recs.length), getPos f k = some (f.recs[k]).pos := by
+  rcases buildOrderedE_ok hf with ⟨ho, hb, _, hfo⟩
+  have hbuilt := built_of_build hb
+  have hp := (orderedKeysOk_iff _ _).mp ho
+  have hp' := List.pairwise_cons.mp hp
+  rcases index_readback hbuilt (fun r hr => ((formatsOk_facts hbuilt hfo).1 r hr).2.2.2) with ⟨_, hl, hg⟩
+  refine ⟨hp'.2, ?_, ?_, ?_, hg⟩
+  · intro kv hkv hnil
+    have := hp'.1 kv.1 (List.mem_map.mpr ⟨kv, hkv, rfl⟩)
+    rw [hnil] at this
+    exact List.lt_irrefl _ this
+  · unfold buildE; rw [hb]; simp only; rw [if_pos hfo]
+  · rw [hl, hbuilt.recs, length_layout]
+
+/-- `closest_key(k)`: the first key at or after `k`. -/
 theorem ordered_closest_key {α} (hash : Key → Nat) (vlen : α → Nat) (so : Nat) (kvs : List (Key × α))
-    (f : File α) (hf : build hash vlen so kvs = some f)
-    (hord : (kvs.map (·.1)).Pairwise (· < ·)) (key : Key) :
+    (f : File α) (hf : buildOrderedE hash vlen so kvs = .ok f) (key : Key) :
     closestKey f key = .ok ((kvs.map (·.1)).find? (fun k => !decide (k < key))) := by
-  rcases closest_pos_spec hash vlen so kvs f hf hord key with ⟨lo, hlo, hpos, hlen, h1, h2⟩
-  rcases build_spec hash vlen so kvs with ⟨f', hf', hb⟩
-  rw [hf] at hf'
-  cases Option.some.inj hf'
-  have hsorted : f.recs.Pairwise (fun a b => a.pos < b.pos) := by
-    rw [hb.recs]; exact layout_pos_sorted vlen kvs _
-  unfold closestKey
-  rw [hpos]
-  simp only [bind, Except.bind]
-  have hfind : (kvs.map (·.1)).find? (fun k => !decide (k < key)) = (kvs.map (·.1))[lo]? := by
-    apply find?_eq_getElem
-    · intro k hk hklo
-      have := h1 k (by simpa using hk) hklo
-      simp [this]
-    · intro hlo'
-      have := h2 lo (by simpa using hlo') (Nat.le_refl _)
-      simp [this]
-    · simpa using hlo
-  rw [hfind]
-  by_cases hend : lo < kvs.length
-  · have hlr : lo < f.recs.length := by omega
-    rw [List.getElem?_eq_getElem hlr]
-    simp only [Option.map_some]
-    unfold recAt
-    rw [find_at_pos hsorted (List.getElem_mem hlr)]
-    simp only
-    rw [List.getElem?_eq_getElem (by simpa using hend)]
-    congr 2
-    have := getElem_layout_key vlen kvs (so + headerSize) lo (by rw [← hb.recs]; exact hlr) hend
-    simp only [hb.recs, List.getElem_map]
-    exact this
-  · rw [List.getElem?_eq_none (by omega), List.getElem?_eq_none (by simp; omega)]
-    rfl
+  rcases buildOrderedE_ok hf with ⟨ho, hb, _, hfo⟩
+  have hbuilt := built_of_build hb
+  exact closest_key_raw hash vlen so kvs f hb
+    (fun r hr => ((formatsOk_facts hbuilt hfo).1 r hr).2.2.2)
+    (List.pairwise_cons.mp ((orderedKeysOk_iff _ _).mp ho)).2 key
 
 /-- `items_from(k)` / `keys_from(k)`: the pairs from the first key at or after `k` to the end. -/
 theorem ordered_items_from {α} (hash : Key → Nat) (vlen : α → Nat) (so : Nat) (kvs : List (Key × α))
-    (f : File α) (hf : build hash vlen so kvs = some f)
-    (hord : (kvs.map (·.1)).Pairwise (· < ·)) (key : Key) :
+    (f : File α) (hf : buildOrderedE hash vlen so kvs = .ok f) (key : Key) :
     itemsFrom vlen f key = .ok (kvs.dropWhile (fun kv => decide (kv.1 < key))) := by
-  rcases closest_pos_spec hash vlen so kvs f hf hord key with ⟨lo, hlo, hpos, hlen, h1, h2⟩
-  rcases build_spec hash vlen so kvs with ⟨f', hf', hb⟩
-  rw [hf] at hf'
-  cases Option.some.inj hf'
-  have hsorted : f.recs.Pairwise (fun a b => a.pos < b.pos) := by
-    rw [hb.recs]; exact layout_pos_sorted vlen kvs _
-  unfold itemsFrom
-  rw [hpos]
-  simp only [bind, Except.bind]
-  have hdrop : kvs.dropWhile (fun kv => decide (kv.1 < key)) = kvs.drop lo := by
-    apply dropWhile_eq_drop
-    · intro k hk hklo
-      simpa using h1 k hk hklo
-    · intro hlo'
-      simpa using h2 lo hlo' (Nat.le_refl _)
-    · exact hlo
-  rw [hdrop]
-  by_cases hend : lo < kvs.length
-  · have hlr : lo < f.recs.length := by omega
-    rw [List.getElem?_eq_getElem hlr]
-    simp only [Option.map_some]
-    rcases layout_drop vlen kvs (so + headerSize) lo hend with ⟨pre, hpre, hend'⟩
-    have hposeq : (f.recs[lo]).pos = ((layout vlen (so + headerSize) kvs)[lo]'(by rw [length_layout]; exact hend)).pos := by
-      simp only [hb.recs]
-    rw [walk_layout vlen f hsorted (kvs.drop lo) _ pre (by rw [hposeq, ← hpre, hb.recs])
-      (by rw [hposeq, ← hend', hb.eod]), layout_kvs]
-  · rw [List.getElem?_eq_none (by omega)]
-    simp only [Option.map_none]
-    rw [List.drop_eq_nil_of_le (by omega)]
+  rcases buildOrderedE_ok hf with ⟨ho, hb, _, hfo⟩
+  have hbuilt := built_of_build hb
+  exact items_from_raw hash vlen so kvs f hb
+    (fun r hr => ((formatsOk_facts hbuilt hfo).1 r hr).2.2.2)
+    (List.pairwise_cons.mp ((orderedKeysOk_iff _ _).mp ho)).2 key
 
 /-- Non-vacuity: colliding keys under a constant hash (one bucket, every probe collides),
-    duplicates and an empty key; a file exists (`hash_build_total`) and answers in insertion order. -/
-example : ∃ f, build (fun _ => 7) (fun (v : Nat) => v) 0 [([1], 10), ([2], 20), ([1], 30), ([], 0)] = some f
+    duplicates and an empty key; the checked writer accepts and the reader answers in insertion
+    order. -/
+example : ∃ f, buildE (fun _ => 7) (fun (v : Nat) => v) 0 [([1], 10), ([2], 20), ([1], 30), ([], 0)] = .ok f
     ∧ all (fun _ => 7) f [1] = [10, 30] ∧ all (fun _ => 7) f [] = [0] ∧ all (fun _ => 7) f [9] = [] := by
-  rcases hash_build_total (fun _ => 7) (fun (v : Nat) => v) 0 [([1], 10), ([2], 20), ([1], 30), ([], 0)]
-    with ⟨f, hf⟩
-  refine ⟨f, hf, ?_, ?_, ?_⟩ <;> rw [hash_lookup _ _ _ _ f hf] <;> decide
+  have hd : (buildE (fun _ => 7) (fun (v : Nat) => v) 0 [([1], 10), ([2], 20), ([1], 30), ([], 0)]).toBool = true := by
+    decide +kernel
+  cases hf : buildE (fun _ => 7) (fun (v : Nat) => v) 0 [([1], 10), ([2], 20), ([1], 30), ([], 0)] with
+  | error e => rw [hf] at hd; cases hd
+  | ok f =>
+    refine ⟨f, rfl, ?_, ?_, ?_⟩ <;> rw [hash_lookup _ _ _ _ f hf] <;> decide
+
+/-- an ordered file whose offsets start beyond 2^16 (index retyped to `i`) is accepted … -/
+example : (buildOrderedE (fun k => k.length) (fun (v : Nat) => v) 70000 [([1], 3), ([1, 0], 0), ([2], 1)]).toBool = true
+    ∧ ((buildOrderedE (fun k => k.length) (fun (v : Nat) => v) 70000 [([1], 3), ([1, 0], 0), ([2], 1)]).toOption.map
+        (·.indexTC)) = some .i := by decide +kernel
+/-- … an empty first key, a repeated key and a 2^32 hash value are rejected. -/
+example : buildOrderedE (fun _ => 1) (fun (v : Nat) => v) 0 [([], 3)] = .error .value
+    ∧ buildOrderedE (fun _ => 1) (fun (v : Nat) => v) 0 [([1], 3), ([1], 4)] = .error .value
+    ∧ buildE (fun _ => 2 ^ 32) (fun (v : Nat) => v) 0 [([1], 3)] = .error .struct := by
+  refine ⟨ordered_writer_rejects _ _ _ _ (by decide), ordered_writer_rejects _ _ _ _ (by decide),
+    hash_writer_rejects _ _ _ _ ⟨([1], 3), by simp, by decide⟩⟩
 
 end WM.C20
